@@ -3,6 +3,7 @@ C03 - Trust comes only from the stores the applicable policy names, typed by sch
 Property theorems only; the model is in `Model/C03.lean`.
 -/
 import NotationModel.Model.C03
+import NotationModel.Generated.SrcC03
 set_option linter.unusedSimpArgs false
 set_option linter.unusedVariables false
 
@@ -10,14 +11,10 @@ namespace NotationModel.C03
 
 /-! ### the extracted facts the model is defined in terms of, pinned -/
 
-/-- the scheme switch of `loadX509TrustStores` maps each scheme to the store type the property
-demands, the three types are pairwise distinct, contain no separator, and the loading loop cuts at ":" -/
+/-- the three store type constants have the values the property speaks of, `Types` lists exactly
+them, and the loading loop cuts at ":". (What the scheme switches map to is proved against their
+translation: `Tie.source_loadX509TrustStores_refines_model`, `Tie.source_loadX509TSATrustStores_refines_model`.) -/
 theorem facts_pinned :
-    Facts.c03TypeForX509 = Facts.c03TypeCA ∧
-    Facts.c03TypeForSigningAuthority = Facts.c03TypeSigningAuthority ∧
-    Facts.c03TSATypeForX509 = Facts.c03TypeTSA ∧
-    Facts.c03SchemeCases = 2 ∧ Facts.c03SchemeDefaultIsError = true ∧
-    Facts.c03TSASchemeCases = 1 ∧ Facts.c03TSASchemeDefaultIsError = true ∧
     Facts.c03Types = [Facts.c03TypeCA, Facts.c03TypeSigningAuthority, Facts.c03TypeTSA] ∧
     Facts.c03TypeCA = ['c', 'a'] ∧
     Facts.c03TypeSigningAuthority = ['s', 'i', 'g', 'n', 'i', 'n', 'g', 'A', 'u', 't', 'h', 'o', 'r', 'i', 't', 'y'] ∧
@@ -1029,5 +1026,336 @@ example : Holds { exInput .x509 ["tsa:alpha", "ca:gamma"] with
 example : (run (exInput .x509 ["ca:../tsa/alpha", "ca:alpha"])).result = .fail := by decide
 
 end examples
+
+/-TIE-BEGIN-/
+/-! ### tie to the translated source -/
+
+namespace Tie
+open NotationModel.Src NotationModel.Src.verifier
+
+abbrev Cert := x509.Certificate
+
+/-- the world an oracle `GetCertificates` stands for: a load succeeds iff the error is nil -/
+def worldOf (ctx : context.Context) (st : truststore.X509TrustStore) : Text → Text → Option (List Cert) :=
+  fun t n => match st.GetCertificates ctx (String.ofList t) (String.ofList n) with
+    | (cs, none) => some cs
+    | (_, some _) => none
+
+/-- the constants of the translated source are the extracted facts -/
+theorem consts_agree :
+    truststore.TypeCA.toList = Facts.c03TypeCA ∧ truststore.TypeSigningAuthority.toList = Facts.c03TypeSigningAuthority ∧
+    truststore.TypeTSA.toList = Facts.c03TypeTSA ∧ truststore.Types.map String.toList = Facts.c03Types ∧
+    Char.ofNat 58 = Facts.c03Separator ∧
+    signature.SigningSchemeX509 ≠ signature.SigningSchemeX509SigningAuthority := by decide
+
+/-- `GoLite.cut` (on strings) and the model's `cut` (on character lists) -/
+theorem cut_eq_takeWhile (cs : List Char) :
+    cut cs = if cs.contains Facts.c03Separator then
+      some (cs.takeWhile (· != Facts.c03Separator), (cs.dropWhile (· != Facts.c03Separator)).drop 1) else none := by
+  induction cs with
+  | nil => simp [cut]
+  | cons c rest ih =>
+    unfold cut
+    by_cases hc : c = Facts.c03Separator
+    · subst hc; simp
+    · have h1 : (c != Facts.c03Separator) = true := by simpa using hc
+      have h2 : (Facts.c03Separator == c) = false := by
+        cases h : (Facts.c03Separator == c) with
+        | false => rfl
+        | true => exact absurd (by simpa using h : Facts.c03Separator = c).symm hc
+      simp only [hc, if_false, ih, List.contains_cons, h2, Bool.false_or, List.takeWhile_cons, h1, if_true,
+        List.dropWhile_cons]
+      by_cases hr : Facts.c03Separator ∈ rest <;> simp [hr]
+
+theorem cut_src (s : String) :
+    cut s.toList = if (GoLite.cut s (Char.ofNat 58)).2.2 = true then
+      some ((GoLite.cut s (Char.ofNat 58)).1.toList, (GoLite.cut s (Char.ofNat 58)).2.1.toList) else none := by
+  rw [cut_eq_takeWhile, consts_agree.2.2.2.2.1]
+  unfold GoLite.cut
+  by_cases h : Facts.c03Separator ∈ s.toList <;> simp [h, String.toList_ofList]
+
+/-- one round of the translated loop, seen through the abstraction (processed values, certificates so far) -/
+def srcStep (early : Bool) (ctx : context.Context) (ty : String) (st : truststore.X509TrustStore)
+    (t : List String × List Cert) (e : String) : Except (GoLite.Err × List String) (List String × List Cert) :=
+  -- `early`: the value is put into the processed set before the load (harmless: a failing load
+  -- returns at once); the error carries the processed set the loop stopped with, which nobody reads
+  if t.1.contains e then .ok t
+  else if (GoLite.cut e (Char.ofNat 58)).2.2 = false then .error (GoLite.errT "truststore.TrustStoreError" "", t.1)
+  else if ty ≠ (GoLite.cut e (Char.ofNat 58)).1 then .ok t
+  else match (st.GetCertificates ctx ty (GoLite.cut e (Char.ofNat 58)).2.1).2 with
+    | some err => .error (err, if early then e :: t.1 else t.1)
+    | none => .ok (e :: t.1, t.2 ++ (st.GetCertificates ctx ty (GoLite.cut e (Char.ofNat 58)).2.1).1)
+
+theorem contains_map_toList (p : List String) (e : String) :
+    (p.map String.toList).contains e.toList = p.contains e := by
+  induction p with
+  | nil => rfl
+  | cons a p ih =>
+    simp only [List.map_cons, List.contains_cons, ih]
+    congr 1
+    cases h : (e == a) with
+    | true => have : e = a := by simpa using h
+              simp [this]
+    | false =>
+      have : e ≠ a := by simpa using h
+      have h' : ¬ e.toList = a.toList := fun x => this (String.toList_inj.1 x)
+      simpa using h'
+
+/-- the abstract fold of the source loop is the model's loop (which accumulates from the back) -/
+theorem foldE_loadLoop (early : Bool) (ctx : context.Context) (ty : String) (st : truststore.X509TrustStore) (l : List String) :
+    ∀ (p : List String) (acc : List Cert),
+    (match GoLite.foldE (srcStep early ctx ty st) l (p, acc) with
+      | .ok t => some t.2
+      | .error _ => none) =
+    (loadLoop (worldOf ctx st) ty.toList (l.map String.toList) (p.map String.toList)).2.map (acc ++ ·) := by
+  induction l with
+  | nil => intro p acc; simp [GoLite.foldE, loadLoop]
+  | cons e rest ih =>
+    intro p acc
+    simp only [List.map_cons, GoLite.foldE]
+    generalize hq : srcStep early ctx ty st (p, acc) e = q
+    unfold srcStep at hq
+    unfold loadLoop
+    rw [contains_map_toList, cut_src]
+    by_cases hp : p.contains e = true
+    · simp only [hp, if_true] at hq ⊢
+      subst hq; exact ih p acc
+    · simp only [hp, Bool.false_eq_true, if_false] at hq ⊢
+      cases hf : (GoLite.cut e (Char.ofNat 58)).2.2 with
+      | false =>
+        simp only [hf, if_true] at hq
+        subst hq; simp
+      | true =>
+        simp only [hf, Bool.true_eq_false, if_false, if_true] at hq ⊢
+        by_cases ht : ty = (GoLite.cut e (Char.ofNat 58)).1
+        · have ht' : ty.toList = (GoLite.cut e (Char.ofNat 58)).1.toList := by rw [← ht]
+          simp only [ne_eq, ht', not_true_eq_false, if_false]
+          simp only [← ht, ne_eq, not_true_eq_false, if_false, worldOf, String.ofList_toList] at hq ⊢
+          rcases hg : st.GetCertificates ctx ty (GoLite.cut e (Char.ofNat 58)).2.1 with ⟨cs, err⟩
+          rw [hg] at hq
+          cases err with
+          | some x => simp only at hq; subst hq; simp
+          | none =>
+            simp only at hq ⊢
+            subst hq
+            have := ih (e :: p) (acc ++ cs)
+            simp only [List.map_cons] at this
+            simp only [this]
+            cases (loadLoop (worldOf ctx st) ty.toList (rest.map String.toList) (e.toList :: p.map String.toList)).2 <;> simp
+        · have ht' : ¬ ty.toList = (GoLite.cut e (Char.ofNat 58)).1.toList := fun x => ht (String.toList_inj.1 x)
+          simp only [ne_eq, ht, ht', not_false_eq_true, if_true] at hq ⊢
+          subst hq; exact ih p acc
+
+/-- what is compared: the certificates (nil on error) and whether an error is returned -/
+def shape (r : Option (List Cert) × Option GoLite.Err) : Option (List Cert) × Bool := (r.1, r.2.isSome)
+
+def ofModel (m : Option (List Cert)) : Option (List Cert) × Bool := (m, m.isNone)
+
+abbrev absA (t : List String × List Cert) : Option (Option (List Cert) × Option GoLite.Err) × set.Set × List Cert :=
+  (none, ⟨t.1⟩, t.2)
+abbrev stopA (t : List String × List Cert) (e : GoLite.Err × List String) : Option (Option (List Cert) × Option GoLite.Err) × set.Set × List Cert :=
+  (some (none, some e.1), ⟨e.2⟩, t.2)
+/-- the same with the two mutable variables declared in the other order -/
+abbrev absB (t : List String × List Cert) : Option (Option (List Cert) × Option GoLite.Err) × List Cert × set.Set :=
+  (none, t.2, ⟨t.1⟩)
+abbrev stopB (t : List String × List Cert) (e : GoLite.Err × List String) : Option (Option (List Cert) × Option GoLite.Err) × List Cert × set.Set :=
+  (some (none, some e.1), t.2, ⟨e.2⟩)
+
+/- `tie_loop`: rewrite the translated loop into `foldE (srcStep early ..)` through the abstraction
+`abs`/`stop`, discharge the side condition by case analysis, finish with the model lemma `hm`
+(unhygienic on purpose: it speaks about the variables of the theorem below) -/
+set_option hygiene false in
+local macro "tie_loop " early:term ", " abs:term ", " stop:term : tactic =>
+  `(tactic| (
+    rw [GoLite.forIn_eq_foldE' _ (srcStep $early ctx ty st) $abs $stop ?h _ _ ([], []) rfl]
+    case h =>
+      intro e t
+      simp only [srcStep, set.Set.Contains, set.Set.Add, id]
+      by_cases h1 : t.1.contains e = true <;>
+      cases h2 : (GoLite.cut e (Char.ofNat 58)).2.2 <;>
+      by_cases h3 : ty = (GoLite.cut e (Char.ofNat 58)).1 <;>
+      cases h4 : (st.GetCertificates ctx ty (GoLite.cut e (Char.ofNat 58)).2.1).2 <;>
+      (first | have h3' := Ne.symm h3 | skip) <;>
+      simp_all
+    rw [← hm $early]
+    cases GoLite.foldE (srcStep $early ctx ty st) l ([], []) with
+    | ok t => simp [shape, ofModel, GoLite.idPure, GoLite.idBind, bind]
+    | error p => obtain ⟨t, e⟩ := p; simp [shape, ofModel, GoLite.idPure, GoLite.idBind, bind]))
+
+/-- TIE (translated source): `loadX509TrustStoresWithType`, translated from verifier/helpers.go on
+every run (`Generated/SrcC03.lean`), returns - for EVERY store type, EVERY trust store list and
+EVERY trust store oracle `GetCertificates` - exactly the certificates the model's `loadLoop`
+returns for the world the oracle stands for (same certificates in the same order), and an error
+(with nil certificates) exactly when the model's loop fails. -/
+theorem source_loadX509TrustStoresWithType_refines_model (ctx : context.Context) (ty pn : String) (l : List String)
+    (st : truststore.X509TrustStore) :
+    shape (loadX509TrustStoresWithType ctx ty pn l st) =
+      ofModel (loadLoop (worldOf ctx st) ty.toList (l.map String.toList) []).2 := by
+  have hm : ∀ early, (match GoLite.foldE (srcStep early ctx ty st) l ([], []) with
+      | .ok t => some t.2
+      | .error _ => none) = (loadLoop (worldOf ctx st) ty.toList (l.map String.toList) []).2 := by
+    intro early
+    have := foldE_loadLoop early ctx ty st l [] []
+    simpa using this
+  unfold loadX509TrustStoresWithType
+  have hd : (default : List Cert) = [] := rfl
+  simp only [Id.run, set.New, hd]
+  -- the loop as the fold of `srcStep`: the two mutable variables in either order, the value
+  -- marked as processed after or before the load
+  first
+  | tie_loop false, absA, stopA
+  | tie_loop false, absB, stopB
+  | tie_loop true, absA, stopA
+  | tie_loop true, absB, stopB
+
+/-- non-vacuity: the translated loop on a concrete list and oracle (ca/alpha holds one certificate,
+ca/beta does not load): duplicates and other types are passed over, the first failing load stops it -/
+def exStore : truststore.X509TrustStore :=
+  ⟨fun _ ty n => if ty == "ca" && n == "alpha" then ([⟨⟨"CN=root"⟩⟩], none)
+    else if ty == "ca" && n == "gamma" then ([⟨⟨"CN=other"⟩⟩], none) else ([], some ⟨"truststore.TrustStoreError"⟩)⟩
+example : loadX509TrustStoresWithType () "ca" "p" ["ca:alpha", "tsa:alpha", "ca:alpha", "ca:gamma"] exStore =
+    (some [⟨⟨"CN=root"⟩⟩, ⟨⟨"CN=other"⟩⟩], none) := by decide
+example : loadX509TrustStoresWithType () "ca" "p" ["ca:alpha", "ca:beta", "ca:gamma"] exStore =
+    (none, some ⟨"truststore.TrustStoreError"⟩) := by decide
+example : (loadX509TrustStoresWithType () "signingAuthority" "p" ["ca:alpha", "nosep"] exStore).2.isSome = true := by decide
+
+/-! #### the scheme switches in front of the loop -/
+
+/-- the scheme constant a model scheme stands for -/
+def schemeName : Scheme → signature.SigningScheme
+  | .x509 => signature.SigningSchemeX509
+  | .signingAuthority => signature.SigningSchemeX509SigningAuthority
+
+theorem storeTypeOf_src (s : Scheme) :
+    storeTypeOf s = (match s with
+      | .x509 => truststore.TypeCA
+      | .signingAuthority => truststore.TypeSigningAuthority).toList := by
+  cases s <;> decide
+
+/-- TIE: `loadX509TrustStores` (translated) maps each of the two schemes to the store type the
+model's `storeTypeOf` names and then returns what the model's `loadStores` returns - for every
+list and oracle -/
+theorem source_loadX509TrustStores_refines_model (ctx : context.Context) (s : Scheme) (pn : String) (l : List String)
+    (st : truststore.X509TrustStore) :
+    shape (loadX509TrustStores ctx (schemeName s) pn l st) =
+      ofModel (loadStores (worldOf ctx st) s (l.map String.toList)).2 := by
+  unfold loadStores
+  rw [storeTypeOf_src, ← source_loadX509TrustStoresWithType_refines_model ctx _ pn l st]
+  unfold loadX509TrustStores
+  have d1 : (signature.SigningSchemeX509SigningAuthority == signature.SigningSchemeX509) = false := by decide
+  have d2 : (signature.SigningSchemeX509 == signature.SigningSchemeX509SigningAuthority) = false := by decide
+  cases s <;> simp [schemeName, Id.run, GoLite.idPure, d1, d2]
+
+/-- ... and any other scheme is an error, nothing is loaded -/
+theorem source_loadX509TrustStores_other_scheme (ctx : context.Context) (scheme pn : String) (l : List String)
+    (st : truststore.X509TrustStore) (h1 : scheme ≠ signature.SigningSchemeX509)
+    (h2 : scheme ≠ signature.SigningSchemeX509SigningAuthority) :
+    shape (loadX509TrustStores ctx scheme pn l st) = (none, true) := by
+  unfold loadX509TrustStores
+  have h1' := Ne.symm h1
+  have h2' := Ne.symm h2
+  simp [Id.run, h1, h2, h1', h2', shape, GoLite.idPure]
+
+/-- TIE: `loadX509TSATrustStores` (the timestamp path) loads the stores of type `tsa` for
+notary.x509 and fails for every other scheme -/
+theorem source_loadX509TSATrustStores_refines_model (ctx : context.Context) (pn : String) (l : List String)
+    (st : truststore.X509TrustStore) :
+    shape (loadX509TSATrustStores ctx signature.SigningSchemeX509 pn l st) =
+      ofModel (loadLoop (worldOf ctx st) Facts.c03TypeTSA (l.map String.toList) []).2 ∧
+    ∀ scheme, scheme ≠ signature.SigningSchemeX509 →
+      shape (loadX509TSATrustStores ctx scheme pn l st) = (none, true) := by
+  constructor
+  · rw [show Facts.c03TypeTSA = truststore.TypeTSA.toList by decide,
+      ← source_loadX509TrustStoresWithType_refines_model ctx _ pn l st]
+    unfold loadX509TSATrustStores
+    simp [Id.run, GoLite.idPure]
+  · intro scheme h
+    unfold loadX509TSATrustStores
+    have h' := Ne.symm h
+    simp [Id.run, h, h', shape, GoLite.idPure]
+
+example : loadX509TrustStores () "notary.x509.signingAuthority" "p" ["ca:alpha", "signingAuthority:alpha"] exStore =
+    (none, some ⟨"truststore.TrustStoreError"⟩) := by decide
+example : (loadX509TrustStores () "notary.x509" "p" ["ca:alpha", "signingAuthority:alpha"] exStore).1.isSome = true := by decide
+
+/-! #### `isTSATrustStoreInPolicy` -/
+
+def tsaStep (_u : Unit) (e : String) : Except (Bool × Option GoLite.Err) Unit :=
+  if (GoLite.cut e (Char.ofNat 58)).2.2 = false then .error (false, some (GoLite.errT "truststore.TrustStoreError" ""))
+  else if (GoLite.cut e (Char.ofNat 58)).1 = truststore.TypeTSA then .error (true, none)
+  else .ok ()
+
+def ofTsa : Option Bool → Bool × Bool
+  | some b => (b, false)
+  | none => (false, true)
+
+theorem foldE_tsa (l : List String) :
+    (match GoLite.foldE tsaStep l () with
+      | .ok _ => ((false, false) : Bool × Bool)
+      | .error (_, r) => (r.1, r.2.isSome)) = ofTsa (tsaInPolicy (l.map String.toList)) := by
+  induction l with
+  | nil => simp [GoLite.foldE, tsaInPolicy, ofTsa]
+  | cons e rest ih =>
+    simp only [List.map_cons, GoLite.foldE, tsaInPolicy]
+    generalize hq : tsaStep () e = q
+    unfold tsaStep at hq
+    rw [cut_src]
+    cases hf : (GoLite.cut e (Char.ofNat 58)).2.2 with
+    | false => simp only [hf, if_true] at hq; subst hq; simp [ofTsa, GoLite.errT]
+    | true =>
+      simp only [hf, Bool.true_eq_false, if_false, if_true] at hq ⊢
+      rw [← consts_agree.2.2.1]
+      by_cases ht : (GoLite.cut e (Char.ofNat 58)).1 = truststore.TypeTSA
+      · simp only [ht, if_true] at hq ⊢; subst hq; simp [ofTsa]
+      · have ht' : ¬ (GoLite.cut e (Char.ofNat 58)).1.toList = truststore.TypeTSA.toList :=
+          fun x => ht (String.toList_inj.1 x)
+        simp only [ht, ht', if_false] at hq ⊢
+        subst hq; exact ih
+
+/-- TIE: `isTSATrustStoreInPolicy` (translated) answers what the model's `tsaInPolicy` answers:
+true at the first value of type tsa, an error at a value without separator met before that -/
+theorem source_isTSATrustStoreInPolicy_refines_model (pn : String) (l : List String) :
+    ((isTSATrustStoreInPolicy pn l).1, (isTSATrustStoreInPolicy pn l).2.isSome) =
+      ofTsa (tsaInPolicy (l.map String.toList)) := by
+  rw [← foldE_tsa]
+  unfold isTSATrustStoreInPolicy
+  simp only [Id.run]
+  rw [GoLite.forIn_eq_foldE' _ tsaStep (fun _ => (none, ())) (fun _ r => (some r, ())) ?h _ _ () rfl]
+  case h =>
+    intro e t
+    simp only [tsaStep, id]
+    cases h2 : (GoLite.cut e (Char.ofNat 58)).2.2 <;>
+    by_cases h3 : (GoLite.cut e (Char.ofNat 58)).1 = truststore.TypeTSA <;>
+    (first | have h3' := Ne.symm h3 | skip) <;>
+    simp_all
+  cases GoLite.foldE tsaStep l () with
+  | ok t => simp [GoLite.idPure, GoLite.idBind, bind]
+  | error p => obtain ⟨t, r⟩ := p; simp [GoLite.idPure, GoLite.idBind, bind]
+
+example : isTSATrustStoreInPolicy "p" ["ca:alpha", "tsa:beta", "nosep"] = (true, none) := by decide
+example : isTSATrustStoreInPolicy "p" ["ca:alpha", "nosep", "tsa:beta"] = (false, some ⟨"truststore.TrustStoreError"⟩) := by decide
+example : isTSATrustStoreInPolicy "p" ["ca:tsa", "signingAuthority:alpha"] = (false, none) := by decide
+
+/-- the model's `tsaInPolicy` says `true` only for lists that name a tsa store -/
+theorem tsaInPolicy_true (l : List Text) (h : tsaInPolicy l = some true) :
+    ∃ n, entry Facts.c03TypeTSA n ∈ l := by
+  induction l with
+  | nil => simp [tsaInPolicy] at h
+  | cons e rest ih =>
+    unfold tsaInPolicy at h
+    cases hc : cut e with
+    | none => simp [hc] at h
+    | some tn =>
+      obtain ⟨t, n⟩ := tn
+      simp only [hc] at h
+      by_cases ht : t = Facts.c03TypeTSA
+      · subst ht
+        exact ⟨n, by rw [← ((cut_some_iff e _ n).1 hc).1]; exact List.mem_cons_self⟩
+      · simp only [ht, if_false] at h
+        obtain ⟨n', hn'⟩ := ih h
+        exact ⟨n', List.mem_cons_of_mem _ hn'⟩
+
+end Tie
+/-TIE-END-/
 
 end NotationModel.C03
